@@ -719,6 +719,11 @@ pub fn damage(ren: &Rendering, fragment: bool) -> Vec<(String, usize, String)> {
                       ins(e.attrs_at, &format!(" xml:{l}='{v1}' dx:{l}='{v2}' xmlns:dx='http://www.w3.org/XML/1998/namespace'"))));
         }
         out.push(("prefix-declared-twice".into(), e.attrs_at, ins(e.attrs_at, " xmlns:dd='urn:u1' xmlns:dd='urn:u2'")));
+        // a name written with a colon in front is no QName
+        out.push(("name-with-leading-colon".into(), e.attrs_at, ins(e.attrs_at, " :k='v'")));
+        out.push(("name-with-leading-colon".into(), e.attrs_at, ins(e.attrs_at, " :xmlns='urn:lc'")));
+        out.push(("name-with-leading-colon".into(), e.name_start, ins(e.name_start, ":")));
+        if let Some((_, _)) = e.end_tag { if let Some((na, _)) = e.end_name { if !t[e.name_start..e.name_end].contains(':') { out.push(("name-with-leading-colon".into(), na, ins(na, ":"))); } } }
         // Namespaces in XML 1.0, "No Prefix Undeclaring": only the default namespace can be undeclared
         out.push(("prefix-undeclared".into(), e.attrs_at, ins(e.attrs_at, " xmlns:ud=''")));
         out.push(("prefix-undeclared".into(), e.attrs_at, ins(e.attrs_at, " xmlns:ud=\"\" ud:k='v'")));
